@@ -5477,8 +5477,8 @@ GRwritechunk(int32       riid,   /* IN: access aid to GR */
     if (NULL == (ri_ptr = (ri_info_t *)HAatom_object(riid)))
         HGOTO_ERROR(DFE_RINOTFOUND, FAIL);
 
-    /* check if access id exists already */
-    if (ri_ptr->img_aid == 0) {
+    /* check if an access id with write permission exists already */
+    if (ri_ptr->img_aid == 0 || (ri_ptr->img_aid != FAIL && (ri_ptr->acc_perm & DFACC_WRITE) == 0)) {
         /* now get access id, use write access */
         if (GRIgetaid(ri_ptr, DFACC_WRITE) == FAIL)
             HGOTO_ERROR(DFE_INTERNAL, FAIL);
@@ -5684,8 +5684,8 @@ GRreadchunk(int32  riid,   /* IN: access aid to GR */
 
     /* check if access id exists already */
     if (ri_ptr->img_aid == 0) {
-        /* now get access id, use write access */
-        if (GRIgetaid(ri_ptr, DFACC_WRITE) == FAIL)
+        /* now get access id; reading needs read access only */
+        if (GRIgetaid(ri_ptr, DFACC_READ) == FAIL)
             HGOTO_ERROR(DFE_INTERNAL, FAIL);
     }
     else if (ri_ptr->img_aid == FAIL)
